@@ -33,8 +33,6 @@ import (
 	banktypes "github.com/cosmos/cosmos-sdk/x/bank/types"
 	govtypes "github.com/cosmos/cosmos-sdk/x/gov/types"
 	gogoproto "github.com/cosmos/gogoproto/proto"
-	gethcommon "github.com/ethereum/go-ethereum/common"
-	ethtypes "github.com/ethereum/go-ethereum/core/types"
 	"github.com/ethereum/go-ethereum/crypto"
 	consensustypes "github.com/palomachain/paloma/v2/x/consensus/types"
 	evmtypes "github.com/palomachain/paloma/v2/x/evm/types"
@@ -193,15 +191,7 @@ var kinds = []kindDef{
 		if m == nil {
 			m = c.anyMsg()
 		}
-		to := gethcommon.HexToAddress(compassAddr(chainA))
-		tx, err := ethtypes.SignTx(ethtypes.NewTx(&ethtypes.LegacyTx{Nonce: 7, GasPrice: big.NewInt(1_000_000_000), Gas: 300_000, To: &to, Value: big.NewInt(0), Data: []byte{0xde, 0xad, 0xbe, 0xef}}),
-			ethtypes.NewEIP155Signer(big.NewInt(100)), c.w.ethKey[0])
-		must(err)
-		raw, err := tx.MarshalBinary()
-		must(err)
-		rc, err := (&ethtypes.Receipt{Status: ethtypes.ReceiptStatusSuccessful, CumulativeGasUsed: 21000, Logs: []*ethtypes.Log{}, TxHash: tx.Hash(), GasUsed: 21000}).MarshalBinary()
-		must(err)
-		p, err := codectypes.NewAnyWithValue(&evmtypes.TxExecutedProof{SerializedTX: raw, SerializedReceipt: rc})
+		p, err := codectypes.NewAnyWithValue(txProof(c, 7))
 		must(err)
 		return &consensustypes.MsgAddEvidence{Metadata: metaOf(c.valAcc(v)), MessageID: idOf(m, 1), QueueTypeName: q, Proof: p}
 	}},
@@ -354,7 +344,7 @@ var kinds = []kindDef{
 
 // relayerOf: the validator that has something to relay on chain A (validator 0 otherwise)
 func relayerOf(c *chain) int {
-	for v := 0; v < nVals; v++ {
+	for v := 0; v < c.nv(); v++ {
 		if ms, err := c.e.App.ConsensusKeeper.GetMessagesForRelaying(c.ctx(), turnstoneQueue(chainA), c.val(v).ValAddr); err == nil && len(ms) > 0 {
 			return v
 		}
